@@ -3,6 +3,8 @@
 /verif/seeded/<Cxx>-<m>/ (patch.diff, demonstration, the seeding agent's note, meta.json)."""
 import json, os, re, shutil, sys
 pid = sys.argv[1]
+# second and later seeding rounds: `keep_seeded.py Cxx 2` stores m1/m2 of the round as m3/m4
+OFFSET = (int(sys.argv[2]) - 1) * 2 if len(sys.argv) > 2 else 0
 HIST = "/verif/seeded/HISTORY.json"
 history = json.load(open(HIST)) if os.path.exists(HIST) else {}
 def needs(note):
@@ -18,7 +20,8 @@ for r in res:
     if not confirmed:
         print(pid, m, "NOT confirmed, not kept:", {k: r.get(k) for k in ("demo_without_change", "demo_with_change", "crate_tests_with_change", "patch_applies_on_head")})
         continue
-    d = f"/verif/seeded/{pid}-{m}"
+    m_out = f"m{int(m[1:]) + OFFSET}"
+    d = f"/verif/seeded/{pid}-{m_out}"
     os.makedirs(d, exist_ok=True)
     shutil.copyfile(f"{seed}/out/{m}.patch", f"{d}/patch.diff")
     shutil.copyfile(f"{seed}/out/{m}_demo.rs", f"{d}/demo.rs")
@@ -28,7 +31,8 @@ for r in res:
     caught_by = [k for k, v in checks.items() if v["verdict"] == "CAUGHT"]
     meta = {
         "property": pid,
-        "mutant": m,
+        "mutant": m_out,
+        "seeding_round": OFFSET // 2 + 1,
         "origin": "fresh sub-agent given only the property text and its own worktree of /repo (no access to /verif)",
         "what": note.strip().split("\n")[0].lstrip("# ").strip() if note else "",
         "needs_to_manifest": needs(note) if note else "",
@@ -43,7 +47,7 @@ for r in res:
     }
     for k in ("demo_note", "patch_note"):
         if r.get(k): meta[k] = r[k]
-    if f"{pid}-{m}" in history:
-        meta["history"] = history[f"{pid}-{m}"]
+    if f"{pid}-{m_out}" in history:
+        meta["history"] = history[f"{pid}-{m_out}"]
     json.dump(meta, open(f"{d}/meta.json", "w"), indent=1)
     print(pid, m, "kept; caught by", caught_by or "NONE")
